@@ -158,35 +158,19 @@ def classify(exp, got):
     return "c03-points"
 
 
-def run(rep, tier, rng, replay=None):
-    ok = core.proof_step(rep, "C03", thorough=(tier == "thorough"))
-    rep.cov["trusted_base"] = core.TRUSTED_COMMON + [
-        "Spec/FileSpec.v + Spec/FormatSpec.v + Spec/BitSpec.v + Spec/PageSpec.v: my reading of ASTM E2807 (tested on every run of C02 against the bundled libE57Format files)",
-        "the XML text of the generated files is produced by tools/vlib/specgen.py in the crate's own lexical style (lexical variants belong to the XML specification); placement arithmetic recomputed in Python and cross-checked against the extracted spec_layout_offsets on every file",
-        "roxmltree parses the XML of the generated files"]
-    if not ok:
-        return
-    specgen.big_stack()
-    impl = core.ensure_harness("debug")
-    impl_rel = core.ensure_harness("release")
-    if replay and replay.get("kind") == "spec-file":
-        cases = [(None, None, bytes.fromhex(replay["xml"]), replay["offs"], replay["spec_line"], replay)]
-        files = None
-    else:
-        files = gen_files(rng, tier)
-        cases = []
-        for entries, names, seed in files:
-            xml, offs, end = specgen.place(entries, names, seed)
-            cases.append((entries, names, xml, offs, spec_line(entries, xml), None))
-    enc = core.run_cases(core.DRIVER, [c[4] for c in cases])
+def process(rep, impl, impl_rel, cases, acc, allow_cross):
+    """one batch: cases = [(entries | None, xml, offs, SPECENC line, replay | None)]"""
+    stats, widths, residues, pads = acc["stats"], acc["widths"], acc["residues"], acc["pads"]
+    enc = core.run_cases(core.DRIVER, [c[3] for c in cases])
     rep.count(len(cases))
     rd_lines, sess_lines, sess_small, meta = [], [], [], []
-    stats = dict(files=0, illegal=0, unfollowed=0, packets=0, index=0, ignored=0, empty_chunks=0, empty_data_packets=0,
-                 nondata_first=0, nondata_last=0, xml_first=0, xml_middle=0, xml_last=0, zero_points=0, zero_width_records=0,
-                 max_packets=0, bytes=0)
-    widths, residues, pads = set(), set(), set()
-    for i, (entries, names, xml, offs, line, rp) in enumerate(cases):
+    for i, (entries, xml, offs, line, rp) in enumerate(cases):
         o = enc[i]
+        if o.startswith("CRASH") or o.startswith("driver-"):
+            stats["driver_crashes"] += 1
+            rep.violation("c03-driver-crash", "the model driver died on a layout (%s): %s" % (o[:60], line[:200]),
+                          dict(kind="spec-file", spec_line=line, xml=xml.hex(), offs=offs), no_input=True)
+            continue
         if not o.startswith("ok "):
             stats["illegal"] += 1
             rep.violation("c03-generator", "the generator produced a layout the specification calls illegal (%s): %s" % (o[:60], line[:200]),
@@ -215,7 +199,7 @@ def run(rep, tier, rng, replay=None):
         sess_lines.append("SESS - %s %s" % (filehex, " ".join(ops)))
         small = int(f["len"]) <= 40 * 1024
         sess_small.append("SESS - %s %s" % (filehex, " ".join(ops_all)) if small else None)
-        meta.append(dict(i=i, line=line, xml=xml, offs=list(offs), exp_rd=exp_rd, exp_se=exp_se, ops=ops, ops_all=ops_all, filehex=filehex))
+        meta.append(dict(line=line, xml=xml, offs=list(offs), exp_rd=exp_rd, exp_se=exp_se, ops=ops, ops_all=ops_all, filehex=filehex))
         if entries:
             pos = [k for k, e in enumerate(entries) if e[0] == "X"][0]
             stats["xml_first" if pos == 0 and len(entries) > 1 else "xml_last" if pos == len(entries) - 1 else "xml_middle"] += 1
@@ -239,26 +223,20 @@ def run(rep, tier, rng, replay=None):
                         widths.add(gen.tok_width(t))
                         stats["zero_width_records"] += 1 if gen.tok_width(t) == 0 else 0
             rep.distinct(gen.fnv_hex(line.encode()))
-    # ---- extraction is checked, not trusted: a few small layouts evaluated inside Coq
-    n_cross = 0
-    if files is not None:
-        for m in meta:
-            entries = cases[m["i"]][0]
-            if n_cross < 3 and len(m["filehex"]) <= 2 * 3072 and any(e[0] == "P" and e[3] and len(e[4]) > 1 for e in entries):
-                crosscheck_extraction(rep, entries, m["xml"], m["filehex"])
-                n_cross += 1
-    rep.cov["layouts_cross_checked_by_vm_compute"] = n_cross
+            # extraction is checked, not trusted: a few small layouts are evaluated inside Coq as well
+            if allow_cross and acc["cross"] < 3 and len(filehex) <= 2 * 3072 and any(e[0] == "P" and e[3] and len(e[4]) > 1 for e in entries):
+                crosscheck_extraction(rep, entries, xml, filehex)
+                acc["cross"] += 1
     # ---- direct leg: the real reader
     a_rd = core.run_cases(impl, rd_lines)
     a_rd_rel = core.run_cases(impl_rel, rd_lines)
     a_se = core.run_cases(impl, sess_lines)
-    n_dir = n_corr = 0
     failed = set()
     for k, m in enumerate(meta):
         for got, exp, what in ((a_rd[k], m["exp_rd"], "open + point clouds"), (a_rd_rel[k], m["exp_rd"], "open + point clouds (release build)"),
                                (a_se[k], m["exp_se"], "XML + blobs")):
             if got != exp:
-                n_dir += 1
+                acc["n_dir"] += 1
                 failed.add(k)
                 cls = classify(exp, got)
                 rep.violation(cls, "the reader does not return what the specification-driven encoder encoded (%s): expected [%s] got [%s]; layout %s" %
@@ -273,21 +251,53 @@ def run(rep, tier, rng, replay=None):
     rep.count(len(idx))
     for j, k in enumerate(idx):
         if m_se[j] != a_se2[j] and k not in failed:
-            n_corr += 1
+            acc["n_corr"] += 1
             rep.violation("correspondence-c03", "reader model and implementation differ on a specification-encoded file: impl=[%s] model=[%s]" % (a_se2[j][:200], m_se[j][:200]),
                           dict(kind="spec-file", spec_line=meta[k]["line"], xml=meta[k]["xml"].hex(), offs=meta[k]["offs"],
                                expected_rd=meta[k]["exp_rd"], expected_sess=meta[k]["exp_se"], ops=meta[k]["ops"], ops_all=meta[k]["ops_all"],
                                failing="correspondence reader model vs implementation"), no_input=True)
-    rep.cov.update(stats)
-    rep.cov.update(widths_covered=len(widths), section_start_residues_mod_1020=len(residues), distinct_pads=len(pads),
-                   direct_failures=n_dir, correspondence_failures=n_corr, correspondence_files=len(idx),
-                   traces_validated_against_impl=len(meta) + len(idx))
-    if meta:
-        mid = meta[len(meta) // 2]
-        rep.sample(dict(kind="spec-encoded file", layout=mid["line"][mid["line"].index(" ", 8):][:300], reader=a_rd[len(meta) // 2][:300]))
+    acc["read"] += len(meta)
+    acc["corr"] += len(idx)
+    if meta and acc["sample"] is None:
+        mid = len(meta) // 2
+        acc["sample"] = dict(kind="spec-encoded file", layout=meta[mid]["line"][meta[mid]["line"].index(" ", 8):][:300], reader=a_rd[mid][:300])
+
+
+def run(rep, tier, rng, replay=None):
+    ok = core.proof_step(rep, "C03", thorough=(tier == "thorough"))
+    rep.cov["trusted_base"] = core.TRUSTED_COMMON + [
+        "Spec/FileSpec.v + Spec/FormatSpec.v + Spec/BitSpec.v + Spec/PageSpec.v: my reading of ASTM E2807 (tested on every run of C02 against the bundled libE57Format files)",
+        "the XML text of the generated files is produced by tools/vlib/specgen.py in the crate's own lexical style (lexical variants belong to the XML specification); placement arithmetic recomputed in Python and cross-checked against the extracted spec_layout_offsets on every file",
+        "roxmltree parses the XML of the generated files"]
+    if not ok:
+        return
+    specgen.big_stack()
+    impl = core.ensure_harness("debug")
+    impl_rel = core.ensure_harness("release")
+    acc = dict(stats=dict(files=0, illegal=0, driver_crashes=0, unfollowed=0, packets=0, index=0, ignored=0, empty_chunks=0, empty_data_packets=0,
+                          nondata_first=0, nondata_last=0, xml_first=0, xml_middle=0, xml_last=0, zero_points=0, zero_width_records=0,
+                          max_packets=0, bytes=0),
+               widths=set(), residues=set(), pads=set(), cross=0, n_dir=0, n_corr=0, read=0, corr=0, sample=None)
+    if replay and replay.get("kind") == "spec-file":
+        process(rep, impl, impl_rel, [(None, bytes.fromhex(replay["xml"]), replay["offs"], replay["spec_line"], replay)], acc, False)
+    else:
+        files = gen_files(rng, tier)
+        batch = 400
+        for b in range(0, len(files), batch):
+            cases = []
+            for entries, names, seed in files[b:b + batch]:
+                xml, offs, end = specgen.place(entries, names, seed)
+                cases.append((entries, xml, offs, spec_line(entries, xml), None))
+            process(rep, impl, impl_rel, cases, acc, True)
+    rep.cov.update(acc["stats"])
+    rep.cov.update(widths_covered=len(acc["widths"]), section_start_residues_mod_1020=len(acc["residues"]), distinct_pads=len(acc["pads"]),
+                   layouts_cross_checked_by_vm_compute=acc["cross"], direct_failures=acc["n_dir"], correspondence_failures=acc["n_corr"],
+                   correspondence_files=acc["corr"], traces_validated_against_impl=acc["read"] + acc["corr"])
+    if acc["sample"]:
+        rep.sample(acc["sample"])
     rep.cov["rule"] = ("random scenes (all record data types, widths 0..64, zero-width records, 0 points) x random LEGAL layouts (packet payloads from 1 byte to the 64 KiB limit, "
                        "unequal chunking per record, values straddling packets, empty chunks, data packets of empty chunks only, records finishing early, index/ignored packets "
                        "at every position including first and last) x file layouts (blobs interleaved, section order, XML before/between/after the sections, extra padding, "
                        "section starts swept over residues modulo 1020), encoded by the extracted spec_encode_file and read by the real crate (debug + release): "
-                       "XML, prototypes, record counts, every value, every blob byte must be as encoded; the extracted reader model must agree with the crate on the same files. "
-                       "distinct = distinct layouts")
+                       "XML, prototypes, record counts, every value, every blob byte must be as encoded; the extracted reader model must agree with the crate on the same files; "
+                       "three small layouts are also evaluated by vm_compute inside Coq and compared with the extracted encoder. distinct = distinct layouts")
